@@ -160,6 +160,8 @@ package core
 //@                      (nodeOf(s, st).Action != nil && firstret(core.Action.Exec, err) == nil ==> atcall(core.Action.Exec, firstret(core.Action.Exec, exe).Bs != nil))
 //@                      ==> permKept(st.Bs, stride.To.Bs)
 //@   ensures[C18;profile=pure] perm-null: stride != nil && stride.To != nil ==> permKept(st.Bs, stride.To.Bs)
+//@   ensures[C08] emitted: stride != nil && (st.NodeName in s.Nodes) && nodeOf(s, st).Action != nil
+//@                         ==> len(stride.Emitted) == atcall(core.Action.Exec, len(firstret(core.Action.Exec, exe).Emitted))
 //@   ensures[C08] guardsilent: stride != nil && (st.NodeName in s.Nodes) && nodeOf(s, st).Action == nil ==> len(stride.Emitted) == 0
 
 // A breakpoint predicate supplied by the host: assumed not to modify anything.
@@ -210,3 +212,16 @@ package core
 // UpdatableSpec: the spec pointer is read and written only through sync/atomic,
 // so a processing call observes one complete version (old or new).
 //@ atomicfield [C12] UpdatableSpec.spec
+
+//@ func (StepProps).Copy returns acc
+//@   safety C07
+//@   modifies[C06,C10,C12] nothing
+//@   ensures acc != nil && fresh(acc)
+//@   loop 0 modifies acc
+
+// Canonicalize (a JSON round trip through encoding/json, which is not
+// verified): the result shares no object with the argument; never panics.
+//@ func Canonicalize returns y, err
+//@   trusted
+//@   modifies nothing
+//@   ensures err == nil ==> ref(y) == nil || fresh(y)
